@@ -120,6 +120,15 @@ func Main(m *testing.M, property string) {
 			syscall.Umask(int(v))
 		}
 	}
+	if n := os.Getenv("VERIF_NOFILE"); n != "" {
+		// a low limit on open files: descriptors that are not closed run out quickly
+		if v, err := strconv.ParseUint(n, 10, 32); err == nil {
+			lim := syscall.Rlimit{Cur: v, Max: v}
+			if err := syscall.Setrlimit(syscall.RLIMIT_NOFILE, &lim); err != nil {
+				fmt.Fprintf(os.Stderr, "ev: setrlimit: %v\n", err)
+			}
+		}
+	}
 	if u := os.Getenv("VERIF_DROP_UID"); u != "" {
 		uid, _ := strconv.Atoi(u)
 		if os.Getuid() == 0 && uid > 0 {
